@@ -120,20 +120,22 @@ def build_unit(ctx, with_dynamics=True):
 
 
 ARGS = ["--bounds-check", "--pointer-check", "--signed-overflow-check", "--object-bits", "10", "--unwind", "9", "--unwinding-assertions", "--no-malloc-may-fail"]
+ARGS_DFCC = ["--bounds-check", "--pointer-check", "--signed-overflow-check", "--object-bits", "10"]      # loop-free bodies: no unwinding bound
 CEX_VARS = ("gq", "gu", "gm", "gi", "gp", "g_nqt", "g_nut", "g_nb", "level", "l", "n", "ghost_threw")
 PROTO = ["MI_lock", "MI_lockAt", "MI_unlock", "MI_getLockLevel", "MB_isLocked"]
 
 
 def units(with_dynamics):
     U = []
-    def u(name, h, enf, repl=(), req=(), fn=None, minob=5):
-        U.append(dict(name="lock." + name, h=h, enf=enf, repl=list(repl), req=list(req), fn=fn or enf, minob=minob))
-    u("lock", "h_lock", "MI_lock", req=[r"postcondition\.10$"], fn="MobilizedBodyImpl::lock")
-    u("lockAt", "h_lockAt", "MI_lockAt", req=[r"postcondition\.11$"], fn="MobilizedBodyImpl::lockAt")
+    def u(name, h, enf, repl=(), req=(), fn=None, minob=5, plain=False):
+        U.append(dict(name="lock." + name, h=h, enf=enf, repl=list(repl), req=list(req), fn=fn or enf, minob=minob, plain=plain))
+    # functions with loops over the own slots: plain harness asserting the contract's clause list (dfcc write-set instrumentation does not finish on the unwound loops)
+    u("lock", "hp_lock", None, req=[r"hp_lock\.assertion\.12$", r"unwind"], fn="MobilizedBodyImpl::lock", plain=True)
+    u("lockAt", "hp_lockAt", None, req=[r"hp_lockAt\.assertion\.11$", r"unwind"], fn="MobilizedBodyImpl::lockAt", plain=True)
     u("unlock", "h_unlock", "MI_unlock", req=[r"postcondition\.4$"], fn="MobilizedBodyImpl::unlock")
     u("getLockLevel", "h_getLockLevel", "MI_getLockLevel", req=[r"postcondition\.1$"], fn="MobilizedBodyImpl::getLockLevel", minob=2)
     u("isLocked", "h_isLocked", "MB_isLocked", ["MI_getLockLevel"], req=[r"postcondition\.1$"], fn="MobilizedBody::isLocked", minob=2)
-    u("getLockValueAsVector", "h_getLockValueAsVector", "MI_getLockValueAsVector", req=[r"postcondition\.5$"], fn="MobilizedBodyImpl::getLockValueAsVector")
+    u("getLockValueAsVector", "hp_getLockValueAsVector", None, req=[r"hp_getLockValueAsVector\.assertion\.6$", r"unwind"], fn="MobilizedBodyImpl::getLockValueAsVector", plain=True)
     u("lemma.lockAt_unlock_lockAcc", "h_L1", "L_lockAt_then_lockAcc", PROTO, req=[r"postcondition\.5$"],
       fn="composition: lockAt(v, Velocity|Acceleration); [unlock;] lock(Acceleration)")
     u("lemma.lockVel_unlock_lockAcc", "h_L2", "L_lockVel_then_lockAcc", PROTO, req=[r"postcondition\.5$"],
@@ -155,7 +157,7 @@ def run(ctx, workers=3, with_dynamics=True):
         return None
     jobs = []
     for d in units(with_dynamics):
-        jobs.append(lambda d=d: cbmc_unit(ctx, d["name"], [unit_c], d["h"], enforce=d["enf"], replace=d["repl"], cbmc_args=ARGS,
+        jobs.append(lambda d=d: cbmc_unit(ctx, d["name"], [unit_c], d["h"], enforce=d["enf"], replace=d["repl"], cbmc_args=ARGS if d["plain"] else ARGS_DFCC, no_dfcc=d["plain"],
                                           require_props=d["req"], min_obligations=d["minob"], function=d["fn"], timeout=240, cex_vars=CEX_VARS))
     jobs.append(lambda: cover_unit(ctx, "lock.cover", [unit_c], "h_cover", cc_args=["-DCOVER_ONLY"], expect_min=7, function="lock protocol: contract preconditions"))
     t0 = time.time()
